@@ -16,7 +16,7 @@ DC=$(python3 -c "import json;print(json.load(open('$D/meta.json'))['demo_cmd'])"
 if ! (go build ./... && cd simapp && go build ./...) >>"$LOG" 2>&1; then echo "$L BUILD-FAILED"; exit 0; fi
 if ! go test -vet=off -count=1 ./... >>"$LOG" 2>&1; then echo "$L SUITE-FAILS-WITH-PATCH"; exit 0; fi
 mkdir -p "$(dirname "$DP")"; cp "$D/demo_test.go" "$DP"
-DC2=$(echo "$DC" | sed -E "s#cd <repo[ -]root> && ##; s#cd /tmp/mut/[A-Z0-9]+ && ##; s#/tmp/mut/[A-Z0-9]+#$W#g")
+DC2=$(echo "$DC" | sed -E "s#cd <repo[ -]root> && ##; s#cd /tmp/mut[0-9]*/[A-Z0-9]+ && ##; s#/tmp/mut[0-9]*/[A-Z0-9]+#$W#g")
 if (cd "$W" && eval "$DC2") >>"$LOG" 2>&1; then WITH=pass; else WITH=fail; fi
 git apply -R "$D/patch.diff" >>"$LOG" 2>&1 || git checkout -- $(git diff --name-only) >>"$LOG" 2>&1
 if (cd "$W" && eval "$DC2") >>"$LOG" 2>&1; then WITHOUT=pass; else WITHOUT=fail; fi
